@@ -196,9 +196,21 @@ def refine(body, o, env, depth=0):
         return o
     if k == 'call':
         nargs = [refine(body, a, env, depth + 1) for a in o.args]
-        if any(x is not y for x, y in zip(nargs, o.args)):
+        callee = o.callee
+        if callee == '<indirect>' and getattr(o, 'term', None) and isinstance(o.term.get('fn'), dict) and o.term['fn'].get('ptr'):
+            # a call through a function pointer whose value is known on this path (`let f = match tag {0 => A::X, ..}; f(v)`)
+            try:
+                fo = refine(body, body.origin_of_operand(o.term['fn']['ptr']), env, depth + 1)
+                while fo is not None and fo.kind in ('ref', 'cast'):
+                    fo = fo.base
+                if fo is not None and fo.kind == 'const' and getattr(fo, 'fn', None):
+                    callee = fo.fn
+            except Exception:
+                pass
+        if any(x is not y for x, y in zip(nargs, o.args)) or callee != o.callee:
             n = Origin('call', **{a: v for a, v in o.__dict__.items() if a != 'kind'})
             n.args = nargs
+            n.callee = callee
             return n
         return o
     return o
